@@ -1517,3 +1517,176 @@ RECIPES += (
         else:
             rowindex = _mk_index(row_iddof)''', "rddmig: general forms build the row index from the column DOF and vice versa")]
 )
+
+# ---- constructs met in a round of refactorings written blind (second pass): each with a defect placed inside
+_DMIG_TYPE = '''        if np.iscomplexobj(m):
+            mtype = 4 if m.dtype.itemsize > 8 else 3
+        else:
+            mtype = 2 if m.dtype.itemsize > 4 else 1
+'''
+
+_T1_LARGE_VEC = '''            writer.vecwrite(
+                f, "*       " + form * 2 + "\\n", t[:r:2], d[:r:2], t[1:r:2], d[1:r:2]
+            )
+'''
+
+RECIPES += (
+    # the loop variable is used after the loop (the last value of the range, or what it was before when the range is empty)
+    _pair('''    n = len(ints)
+    firstline = 10 - start
+    if n >= firstline:
+        i = firstline
+        f.write(("{:8d}" * i + "\\n").format(*ints[:i]))
+        # full continuation lines; `i` is where each of these lines ends:
+        for i in range(firstline + 8, n + 1, 8):
+            f.write(("{:8s}" + "{:8d}" * 8 + "\\n").format("", *ints[i - 8 : i]))
+        if n > i:
+            n -= i
+            f.write(("{:8s}" + "{:8d}" * n + "\\n").format("", *ints[i:]))
+    else:
+        f.write(("{:8d}" * n + "\\n").format(*ints))
+''', '''    n = len(ints)
+    firstline = 10 - start
+    if n >= firstline:
+        i = firstline
+        f.write(("{:8d}" * i + "\\n").format(*ints[:i]))
+        # full continuation lines; `i` is where each of these lines ends:
+        for i in range(firstline + 8, n, 8):
+            f.write(("{:8s}" + "{:8d}" * 8 + "\\n").format("", *ints[i - 8 : i]))
+        if n > i:
+            n -= i
+            f.write(("{:8s}" + "{:8d}" * n + "\\n").format("", *ints[i:]))
+    else:
+        f.write(("{:8d}" * n + "\\n").format(*ints))
+''', _NASINTS, ["C13-R4"], "wtnasints: full lines by a range over their end positions, the loop variable used after the loop",
+            "an exactly full last line is left to the remainder, which then gets 8 integers on a line of 8 (fine) - but 16 left over go on one line")
+    + _pair('''    n = len(ints)
+    firstline = 10 - start
+    if n >= firstline:
+        i = firstline
+        f.write(("{:8d}" * i + "\\n").format(*ints[:i]))
+        nfull, nlast = divmod(n - i, 8)
+        last = i + 8 * nfull
+        while i < last:
+            f.write(("{:8s}" + "{:8d}" * 8 + "\\n").format("", *ints[i : i + 8]))
+            i += 8
+        if nlast:
+            f.write(("{:8s}" + "{:8d}" * nlast + "\\n").format("", *ints[last:]))
+    else:
+        f.write(("{:8d}" * n + "\\n").format(*ints))
+''', '''    n = len(ints)
+    firstline = 10 - start
+    if n >= firstline:
+        i = firstline
+        f.write(("{:8d}" * i + "\\n").format(*ints[:i]))
+        nfull, nlast = divmod(n - i, 8)
+        last = i + 8 * nfull
+        while i < last:
+            f.write(("{:8s}" + "{:8d}" * 8 + "\\n").format("", *ints[i : i + 8]))
+            i += 8
+        if nlast:
+            f.write(("{:8s}" + "{:8d}" * nlast + "\\n").format("", *ints[last + 1 :]))
+    else:
+        f.write(("{:8d}" * n + "\\n").format(*ints))
+''', _NASINTS, ["C13-R4"], "wtnasints: divmod for the full lines, a while loop in steps of 8 up to their end", "the remainder starts one integer late")
+    # items produced by a generator function, consumed by extend(...)
+    + _pair('''    def _runs():
+        first = 0
+        while first < length:
+            last = _find_sequence(ids, first)
+            yield first, last
+            first = last + 1
+
+    output = [f"SET {setid:d} = "]
+    output.extend(
+        f"{ids[start]:d} THRU {ids[end]:d}, " if end > start else f"{ids[start]:d}, "
+        for start, end in _runs()
+    )
+    output[-1] = output[-1].rstrip(", ")  # strip the trailing comma from the last item
+''', '''    def _runs():
+        first = 0
+        while first < length:
+            last = _find_sequence(ids, first)
+            yield first, last
+            first = last + 1
+
+    output = [f"SET {setid:d} = "]
+    output.extend(
+        f"{ids[start]:d} THRU {ids[end]:d}, " if end > start + 1 else f"{ids[start]:d}, "
+        for start, end in _runs()
+    )
+    output[-1] = output[-1].rstrip(", ")  # strip the trailing comma from the last item
+''', _WTSET_FULL, ["C13-R4"], "wtset: the items by output.extend(<generator expression over a generator function>)", "a run of two loses its second id")
+    # tables indexed by flags, number formats with attribute fields
+    + _pair('''        iscomplex = np.iscomplexobj(m)
+        isdouble = m.dtype.itemsize > (4, 8)[iscomplex]
+        mtype = ((1, 2), (3, 4))[iscomplex][isdouble]
+''', '''        iscomplex = np.iscomplexobj(m)
+        isdouble = m.dtype.itemsize > (4, 8)[iscomplex]
+        mtype = ((1, 3), (2, 4))[iscomplex][isdouble]
+''', _DMIG_TYPE, ["C13-R3"], "wtdmig: matrix type from a table indexed by [is complex][is double]", "table transposed: complex single precision gets type 2")
+    + _pair('''                        num_format, exponent = {
+                            1: ("{0:16.9E}", "E"),
+                            2: ("{0:16.9E}", "D"),
+                            3: ("{0.real:16.9E}{0.imag:16.9E}", "E"),
+                            4: ("{0.real:16.9E}{0.imag:16.9E}", "D"),
+                        }[mtype]
+                        num_str = num_format.format(num).replace("E", exponent)
+                        f.write("{:<8s}{:16d}{:16d}{:s}\\n".format("*", gi, ci, num_str))
+''', '''                        num_format, exponent = {
+                            1: ("{0:16.9E}", "E"),
+                            2: ("{0:16.9E}", "D"),
+                            3: ("{0.real:16.9E}{0.imag:16.9E}", "E"),
+                            4: ("{0.imag:16.9E}{0.real:16.9E}", "D"),
+                        }[mtype]
+                        num_str = num_format.format(num).replace("E", exponent)
+                        f.write("{:<8s}{:16d}{:16d}{:s}\\n".format("*", gi, ci, num_str))
+''', _DMIG_TERM, ["C13-R3"], "wtdmig: number format and exponent letter from a table indexed by the type, fields {0.real} / {0.imag} (F12 keys must survive)",
+            "type 4 writes the imaginary part first")
+    # True / False as numbers
+    + _pair('''        mtype = 1 + 2 * np.iscomplexobj(m) + (m.dtype.itemsize > 4 * (1 + np.iscomplexobj(m)))
+''', '''        mtype = 1 + np.iscomplexobj(m) + 2 * (m.dtype.itemsize > 4 * (1 + np.iscomplexobj(m)))
+''', _DMIG_TYPE, ["C13-R3"], "wtdmig: matrix type by arithmetic on truth values", "weights exchanged: real double precision gets type 3")
+    + _pair('''                start_row = col * (form == 6)
+''', '''                start_row = (col + 1) * (form == 6)
+''', '''                start_row = col if form == 6 else 0
+''', ["C13-R3"], "wtdmig: start row as col * (form == 6)", "form 6 skips the diagonal")
+    # columns of a reshaped slice
+    + _pair('''            t2, d2 = t[:r].reshape(rows, 2), d[:r].reshape(-1, 2)
+            writer.vecwrite(f, "*       " + form * 2 + "\\n", t2[:, 0], d2[:, 0], t2.T[1], d2.T[1])
+''', '''            t2, d2 = t[:r].reshape(rows, 2), d[:r].reshape(-1, 2)
+            writer.vecwrite(f, "*       " + form * 2 + "\\n", t2[:, 0], t2.T[1], d2[:, 0], d2.T[1])
+''', _T1_LARGE_VEC, ["C13-R1"], "tabled1 large field: the vectors as columns of the reshaped full lines", "both abscissae before both ordinates")
+    + _pair('''            pairs = ((t[k:r:2], d[k:r:2]) for k in range(2))
+            writer.vecwrite(f, "*       " + form * 2 + "\\n", *itertools.chain.from_iterable(pairs))
+''', '''            pairs = ((d[k:r:2], t[k:r:2]) for k in range(2))
+            writer.vecwrite(f, "*       " + form * 2 + "\\n", *itertools.chain.from_iterable(pairs))
+''', _T1_LARGE_VEC, ["C13-R1"], "tabled1 large field: the vectors chained from a generator of pairs", "ordinate before abscissa")
+    + [("C13", "neutral", [], B, '''        vec = d[tid]
+        d[tid] = np.vstack([vec[8:-1:2], vec[9:-1:2]]).T
+''', '''        vec = d[tid]
+        d[tid] = np.concatenate(([vec[8:-1:2]], [vec[9:-1:2]])).T
+''', "rdtabled1: two one-row blocks concatenated and transposed")]
+    # the values of a term from a generator expression zipped with the labels
+    + _pair('''                card = c[j]
+                if mtype < 3:
+                    values = card[6::4]
+                else:
+                    values = (real + 1j * imag for real, imag in zip(card[6::4], card[7::4]))
+                for nid, dof, val in zip(card[4::4], card[5::4], values):
+                    ri = np.searchsorted(r_id_dof, nid * 10 + dof)
+                    mat[ri, ci] = val
+                    if form == 6:
+                        mat[ci, ri] = val
+''', '''                card = c[j]
+                if mtype < 3:
+                    values = card[6::4]
+                else:
+                    values = (real + 1j * imag for real, imag in zip(card[6::4], card[8::4]))
+                for nid, dof, val in zip(card[4::4], card[5::4], values):
+                    ri = np.searchsorted(r_id_dof, nid * 10 + dof)
+                    mat[ri, ci] = val
+                    if form == 6:
+                        mat[ci, ri] = val
+''', _RDDMIG_TERMS, ["C13-R3"], "rddmig: the values of a card from a generator expression, one loop for real and complex cards", "imaginary parts read from the next term's row grid")
+)
